@@ -23,20 +23,26 @@ def getSym (xs : List Sx) (key : String) : Option String :=
 def judge (payload impl : String) : Verdict :=
   let label := match Sx.parse payload with
     | some (.list [_, _, _, .atom l]) => l
+    | some (.list [_, _, _, .atom l, _]) => l
     | _ => "?"
   match Sx.parse impl with
   | some (.list xs) =>
     match getNat xs "n", getNat xs "alloc", getNat xs "ms", getSym xs "end" with
     | some n, some alloc, some ms, some e =>
       let crashed := e.startsWith "panic" || e.startsWith "stage-panic"
-      let ok := !crashed && alloc ≤ allocBound n && ms ≤ msBound n
+      -- growth cases: the same shape at a smaller size n0 was measured first; the allocation at n may
+      -- not exceed twice what the smaller run predicts for n bytes (a + b n <= 2 (a + b n0) n / n0)
+      let growthOk := match getNat xs "n0", getNat xs "alloc0" with
+        | some n0, some alloc0 => n0 == 0 || alloc * n0 ≤ 2 * alloc0 * n + 65536 * n0
+        | _, _ => true
+      let ok := !crashed && alloc ≤ allocBound n && ms ≤ msBound n && growthOk
       let big := match (label.splitOn "=").getLast?.bind String.toInt? with
         | some v => v ≥ 1000000 || v < 0
         | none => false
       let tags := if label.startsWith "h2-" && big then ["h2-frame-prealloc"] else []
       { corr := true, implSpec := ok, modelSpec := true, tags, nontrivial := true,
         cls := (label.splitOn "=").headD "?",
-        model := "-", spec := s!"no panic; alloc <= {allocBound n}; ms <= {msBound n}" }
+        model := "-", spec := s!"no panic; alloc <= {allocBound n}; ms <= {msBound n}; per-byte allocation at most twice that of the smaller run" }
     | _, _, _, _ => { Verdict.bad "bad-observation" with implSpec := false, corr := true }
   | _ =>
     -- the harness was killed on this case (timeout / crash): the dissection did not return
